@@ -33,6 +33,9 @@ static int chooseNumberOfLevels(void)
 void harness(void) {
     finestGrid_nr = nondet_int(); finestGrid_ntheta = nondet_int(); max_levels_ = nondet_int();
     __CPROVER_assume(2 <= finestGrid_nr && finestGrid_nr <= (1 << 30) && 2 <= finestGrid_ntheta && finestGrid_ntheta <= (1 << 30));
+#ifdef SMALL_COUNTEREXAMPLE   /* replay only: a second query for a grid that can be allocated natively */
+    __CPROVER_assume(finestGrid_nr <= 1200 && finestGrid_ntheta <= 2400);
+#endif
     g_thrown = 0;
     const int L = chooseNumberOfLevels();
     /* a two-level hierarchy exists iff the finest grid can be coarsened once to at least 5 x 4 nodes and has ntheta % 4 == 0 */
@@ -82,7 +85,21 @@ def levels_replay_cb(job, key, label, rec):
     except (KeyError, ValueError):
         return None
     if nr * nt > 4000000:
-        return {"status": "not-attempted", "detail": "counterexample grid %d x %d too large to allocate natively" % (nr, nt)}
+        # the SAT counterexample is too large to allocate: ask the verifier for a small one violating the same obligation
+        import tempfile, shutil
+        j2 = Job(job.name + ".small", job.c_text, "P", unwind=34, timeout=300, bounded=None, defines=["SMALL_COUNTEREXAMPLE"], covers=set())
+        w = tempfile.mkdtemp(prefix="gmgverif-C18small-")
+        try:
+            vlib.exec_job(j2, w)
+            st = (j2.results or {}).get(key, ("", ""))
+            if (st[0] if isinstance(st, tuple) else st) != "FAILURE":
+                return {"status": "not-attempted", "detail": "counterexample grid %d x %d too large to allocate natively and no counterexample with nr <= 1200, ntheta <= 2400 exists" % (nr, nt)}
+            v2 = dict((k2, v2_) for k2, v2_ in vlib.trace_inputs(j2.traces.get(key, [])))
+            nr, nt, cap = int(v2["finestGrid_nr"]), int(v2["finestGrid_ntheta"]), int(v2["max_levels_"])
+        except Exception as e:
+            return {"status": "not-attempted", "detail": "small-counterexample query failed: %r" % (e,)}
+        finally:
+            shutil.rmtree(w, ignore_errors=True)
     return vlib.native_driver("replay_levels", [nr, nt, cap])
 
 
